@@ -78,7 +78,8 @@ def main(tier, replay=None):
 
     # ---- 3. random histories over collision classes, larger sizes ----
     nexec = 48 if quick else 400
-    for name in ("Int", "String", "Probe"):
+    for name, vtype in (("Int", "Int"), ("String", "Int"), ("Probe", "Probe"), ("Int", "Probe"), ("Int", "Odd12"), ("Odd12", "Int")):
+        # (the last three: key and value types of different sizes - slot layout, copy and assign must use each one's own size)
         nk = rng.choice([12, 16, 24])
         mod = rng.choice([55, 1265, 1265 * 53])
         classes = [rng.randrange(mod) for _ in range(3)]
@@ -91,11 +92,11 @@ def main(tier, replay=None):
             keys = sorted(mapgen.colliding_strings(harness, wd, ints, mod if mod < 70000 else 1265, rng))  # token order = byte order
         else:
             keys = ints
-        hdr = mapgen.header(name, "Probe" if name == "Probe" else "Int", keys, [7, 8, 9])
+        hdr = mapgen.header(name, vtype, keys, [7, 8, 9])
         ex = [mapgen.random_history(rng, "Table", len(keys), 3,
                                     rng.choice([40, 120, 300]) if quick else rng.choice([100, 400, 1500]),
-                                    init_pairs=rng.choice([0, 0, 3])) for _ in range(nexec // 3)]
-        camp.run(hdr, ex, "random/" + name, variant=name)
+                                    init_pairs=rng.choice([0, 0, 3])) for _ in range(nexec // (3 if name == vtype or name == "String" else 6))]
+        camp.run(hdr, ex, "random/%s-%s" % (name, vtype), variant=name + vtype)
 
     # ---- 4. large tables: growth and shrinkage across many rehash sizes (5, 11, 23, 53, 101, 197, 389, 683, ...), sampled projection
     big = 700 if quick else 3900              # (the harness value table holds 4095 tokens)
